@@ -11,7 +11,7 @@ TB = ("Trusted: Coq 8.16.1 kernel + VM, extraction (ExtrOcamlBasic only), OCaml 
 
 CLAIMS = {
     "C01": dict(
-        text="Proved in Coq for ALL component lists and operators: the code-shaped three-branch dewey_cmp equals zero-padded position-by-position comparison followed by the revision (C01_cmp_is_padded_lex, C01_lexpad_is_decl); for all strings with digit runs <= 18 the code's tokeniser equals the table-driven reading of the property (C01_tokens_follow_table), and its verdicts equal the property's own reading (alphabet rank) outside the class letter_conflict (C01_verdict_outside_known); inside that class the faithful model provably differs (C01_letter_weight_refuted) - known finding KF-C01-rank. best_match is proved to use the same comparison. Every run compares Dewey/Pattern/best_match of the real crate with the extracted model and with the executable spec on generated pairs (ties and near-ties dominate).",
+        text="Proved in Coq for ALL component lists and operators: the code-shaped three-branch dewey_cmp equals zero-padded position-by-position comparison followed by the revision (C01_cmp_is_padded_lex, C01_lexpad_is_decl); for all strings with digit runs <= 18 the code's tokeniser equals the table-driven reading of the property (C01_tokens_follow_table), and its verdicts equal the property's own reading (alphabet rank) outside the class letter_conflict (C01_verdict_outside_known); inside that class the faithful model provably differs (C01_letter_weight_refuted) - known finding KF-C01-rank. best_match is proved to use the same comparison. Every run compares Dewey/Pattern/best_match of the real crate with the extracted model and with the executable spec on generated pairs (ties and near-ties dominate). C01_tokens_follow_table_all extends the table reading to EVERY string (runs of more than 18 digits saturate at i64::MAX, an oversized nb revision counts as 0).",
         ref="§7 C01, §8 D1/D2", note=TB + " Known finding KF-C01-rank is suppressed only when the pair lies in the Coq-defined class AND the implementation still equals the faithful model.",
         technique="Coq proof (model = table spec, padded-lex theorem) + executable-spec differential correspondence"),
     "C02": dict(
